@@ -58,6 +58,10 @@ type lifeSrv struct {
 	ws      bool
 	wss     *srv.WSServer
 	pend    map[string][2]interface{} // WebSocket: (n, outcome) of an accepted TCP connection, by remote address
+	// refuseNext = k > 0: the attempt after the next k accepted ones is to be refused: the listener is closed by the
+	// accepting goroutine itself at the k-th accept, so that a client that retries within a millisecond cannot slip in
+	refuseNext int32
+	down       int32 // the listener is closed
 	smid    string
 	queue   []string // outcomes for the next attempts
 	resume  string
@@ -103,6 +107,10 @@ func (g lifeGate) Accept() (net.Conn, error) {
 			return nil, err
 		}
 		s := g.s
+		if atomic.LoadInt32(&s.refuseNext) > 0 && atomic.AddInt32(&s.refuseNext, -1) == 0 {
+			atomic.StoreInt32(&s.down, 1)
+			g.Listener.Close()
+		}
 		n := int(atomic.AddInt32(&s.nconn, 1))
 		out := s.next()
 		s.w.Emit(tr.Rec{"ev": "accept", "n": n, "outcome": out})
@@ -157,9 +165,14 @@ func (s *lifeSrv) acceptLoop() {
 		return
 	}
 	for {
-		c, err := s.l.Accept()
+		l := s.l
+		c, err := l.Accept()
 		if err != nil {
 			return
+		}
+		if atomic.LoadInt32(&s.refuseNext) > 0 && atomic.AddInt32(&s.refuseNext, -1) == 0 {
+			atomic.StoreInt32(&s.down, 1)
+			l.Close()
 		}
 		n := int(atomic.AddInt32(&s.nconn, 1))
 		out := s.next()
@@ -446,19 +459,17 @@ func lifeRunOne(w *tr.Writer, tid int, raw json.RawMessage, c *common) error {
 		s.resume = rd.Resume
 		prev, prevN := s.cur, s.curN
 		s.mu.Unlock()
-		listening := true
 		closeL := func() {
-			if listening {
-				s.closeListener()
-				listening = false
-			}
+			s.closeListener() // idempotent; the accepting goroutine may have closed it already (refuseNext)
+			atomic.StoreInt32(&s.down, 1)
 		}
 		openL := func() error {
-			if !listening {
+			if atomic.LoadInt32(&s.down) == 1 {
+				s.closeListener()
 				if err := s.listen(); err != nil {
 					return fmt.Errorf("precondition: cannot re-open the listener: %v", err)
 				}
-				listening = true
+				atomic.StoreInt32(&s.down, 0)
 				go s.acceptLoop()
 			}
 			return nil
@@ -480,6 +491,7 @@ func lifeRunOne(w *tr.Writer, tid int, raw json.RawMessage, c *common) error {
 		}
 		up := false
 		stuck := false
+		blockBase, blockStart := 0, 0 // attempts counted when the current run of imposed outcomes began / its first index
 		for ai, a := range rd.Attempts {
 			att0 := run.get("sm.attempt")
 			if a == "refuse" {
@@ -488,9 +500,21 @@ func lifeRunOne(w *tr.Writer, tid int, raw json.RawMessage, c *common) error {
 				if err := openL(); err != nil {
 					return err
 				}
-				s.mu.Lock()
-				s.queue = append(s.queue, a)
-				s.mu.Unlock()
+				if ai == 0 || rd.Attempts[ai-1] == "refuse" {
+					// the outcomes of the whole run of attempts up to the next refusal are imposed at once: the client
+					// retries within a millisecond of a failure, faster than this loop can follow
+					blockBase, blockStart = att0, ai
+					j := ai
+					for j < len(rd.Attempts) && rd.Attempts[j] != "refuse" {
+						j++
+					}
+					s.mu.Lock()
+					s.queue = append(s.queue, rd.Attempts[ai:j]...)
+					s.mu.Unlock()
+					if j < len(rd.Attempts) {
+						atomic.StoreInt32(&s.refuseNext, int32(j-ai))
+					}
+				}
 			}
 			if ai == 0 {
 				trigger()
@@ -520,7 +544,11 @@ func lifeRunOne(w *tr.Writer, tid int, raw json.RawMessage, c *common) error {
 				return nil
 			}
 			// the attempt must be made and fail
-			ok := run.waitFor(4*time.Second, func(c map[string]int) bool { return c["sm.attempt"] > att0 })
+			want := att0 + 1
+			if a != "refuse" {
+				want = blockBase + (ai - blockStart) + 1 // the client may be ahead of this loop
+			}
+			ok := run.waitFor(4*time.Second, func(c map[string]int) bool { return c["sm.attempt"] >= want })
 			if a == "refuse" {
 				w.Emit(tr.Rec{"ev": "refused", "want": 1, "got": run.get("sm.attempt") - att0, "timely": ok})
 			}
